@@ -148,8 +148,8 @@ def restore_uuid4():
 # ------------------------------------------------------------------------------------------------ environment
 CLIENT_ADDR = ("127.0.0.1", 1)
 #: region circuit addresses; deliberately the *same* for every session (two viewers on the same simulators)
-REGION_ADDRS = [("10.0.0.1", 13000), ("10.0.0.2", 13001)]
-REGION_HANDLES = [(1000 << 40) | (1000 << 8), (1001 << 40) | (1000 << 8)]
+REGION_ADDRS = [("10.0.0.1", 13000), ("10.0.0.2", 13001), ("10.0.0.3", 13002)]
+REGION_HANDLES = [(1000 << 40) | (1000 << 8), (1001 << 40) | (1000 << 8), (1002 << 40) | (1000 << 8)]
 
 
 def session_uuid(si: int, what: int) -> UUID:
